@@ -446,6 +446,35 @@ pub fn run(ctx: &mut Ctx) {
             }
         }
     }
+    // thorough: triples of faults at neighbouring positions (span <= 3) on the three shortest non-empty base streams
+    if !ctx.quick() {
+        let mut short: Vec<&Vec<u8>> = streams.iter().filter(|s| !s.is_empty()).collect();
+        short.sort_by_key(|s| s.len());
+        let mut triples = 0u64;
+        for s in short.iter().take(3) {
+            for g1 in 0..=s.len() {
+                for g2 in g1..=(g1 + 3).min(s.len()) {
+                    for g3 in g2..=(g1 + 3).min(s.len()) {
+                        for k1 in kinds {
+                            for k2 in kinds {
+                                for k3 in kinds {
+                                    idx += 1;
+                                    if !ctx.mine(idx) {
+                                        continue;
+                                    }
+                                    triples += 1;
+                                    let items = with_faults(s, &[(g1, k1), (g2, k2), (g3, k3)]);
+                                    let apis = api_sets[(g1 + g2 + g3) % api_sets.len()];
+                                    ctx.eval(&Faults { items, src: Src::Io, rbuf: RBuf::Default, apis: apis.into(), target: Target::Bytes, origin: "fault-triple" });
+                                }
+                            }
+                        }
+                    }
+                }
+            }
+        }
+        ctx.exhaustive_space("fault triples: positions within a span of 3 x 27 kind triples on the 3 shortest base streams", triples);
+    }
     ctx.exhaustive_space("single faults: every inter-byte position x {WouldBlock, Interrupted, Other} on the 12 base streams", singles);
     ctx.exhaustive_space(
         if ctx.quick() {
@@ -455,6 +484,23 @@ pub fn run(ctx: &mut Ctx) {
         },
         pairs,
     );
+    // long runs of one transparent fault at one position (300 consecutive would-blocks / interrupts)
+    for (si, s) in streams.iter().enumerate() {
+        for g in [0usize, 3, 9, s.len() / 2, s.len()] {
+            if g > s.len() {
+                continue;
+            }
+            for k in [Item::WouldBlock, Item::Interrupted] {
+                idx += 1;
+                if !ctx.mine(idx) {
+                    continue;
+                }
+                let fs: Vec<(usize, Item)> = (0..300).map(|_| (g, k)).collect();
+                let items = with_faults(s, &fs);
+                ctx.eval(&Faults { items, src: Src::Io, rbuf: RBuf::Default, apis: if si % 2 == 0 { "r".into() } else { "N".into() }, target: Target::Bytes, origin: "long-fault-run" });
+            }
+        }
+    }
     // random scripts over random streams, fault probability 1..30 % per gap
     let n = ctx.count(60_000, 2_000_000);
     for _ in 0..n {
